@@ -262,6 +262,18 @@ def fam_wordpairs(r, n, wps=10, v=700):
         out.add(b"".join(r.choice(words) for _ in range(wps)))
     return norm(out)
 
+def fam_geomwords(r, n):
+    # words of 6..40 letters whose letter frequencies halve from one letter to the next: codewords of 1, 2, 3, ... bits next to
+    # rare long ones, members of 5..15 coded bytes - the decoders' byte-refill and padding steps meet every phase
+    letters = b"abcdefghijklmnopqrstuvwxyz"[:r.choice([8, 12, 16, 26])]
+    w = [2 ** (len(letters) - i) for i in range(len(letters))]
+    out = set()
+    tries = 0
+    while len(out) < n and tries < 30 * n:
+        out.add(bytes(r.choices(letters, w, k=r.randint(6, 40))))
+        tries += 1
+    return norm(out)
+
 def fam_longcode(r, n):
     # ~160 KB of text over 10 letters whose frequencies double, plus a few bytes that occur once: together with the weight-1 entries the
     # Huffman / Hu-Tucker models give unused bytes, the rare symbols get codewords longer than the 16-bit decoding-table chunk, so
@@ -298,7 +310,7 @@ FAMILIES = {
     "words": fam_words, "urls": fam_urls, "numerals": fam_numerals, "chain": fam_chain, "near": fam_near,
     "len1": fam_len1, "samelen": fam_samelen, "vbyte": fam_vbyte, "longshort": fam_longshort, "long": fam_long,
     "repetitive": fam_repetitive, "copies": fam_copies, "extremes": fam_extremes, "norepeat": fam_norepeat,
-    "last_single": fam_last_single, "skewed": fam_skewed, "dense": fam_dense, "lcp128x": fam_lcp128x, "longcode": fam_longcode, "tinydense": fam_tinydense, "stempairs": fam_stempairs,
+    "last_single": fam_last_single, "skewed": fam_skewed, "dense": fam_dense, "lcp128x": fam_lcp128x, "longcode": fam_longcode, "tinydense": fam_tinydense, "stempairs": fam_stempairs, "geomwords": fam_geomwords,
 }
 
 def corner_corpus():
